@@ -159,6 +159,22 @@ func TestVerifRing(t *testing.T) {
 		size, ops := genRingCase(r.Fork())
 		emit(fmt.Sprintf("g%d", i), size, ops)
 	}
+	// a backlog beyond 65536 elements (growth from large capacities), popped one by one and in batches
+	for bi, size := range []int{1, 1024}[:vgen.Scale(0, 1)] { // thorough tier only (the list-based model needs minutes for it)
+		var ops []string
+		for x := 1; x <= 70000; x++ {
+			ops = append(ops, "u"+strconv.Itoa(x))
+			if x == 40000 {
+				ops = append(ops, "n100", "o") // head is no longer at 0 when the large growths happen
+			}
+		}
+		ops = append(ops, "l", "n4096", "n4096")
+		for k := 0; k < 200; k++ {
+			ops = append(ops, "o")
+		}
+		ops = append(ops, "n70000", "l", "o")
+		emit(fmt.Sprintf("backlog%d", bi), size, ops)
+	}
 }
 
 // ---------------------------------------------------------------------------------------------
